@@ -359,7 +359,7 @@ def project_metrics(res, model, naming):
     return entries, bad
 
 
-def exec_metrics(obj, objid, model, naming, flt=None, seqno=1, with_agree=True):
+def exec_metrics(obj, objid, model, naming, flt=None, seqno=1, with_agree=True, apply_filter=True, caller_list=None):
     """FMMetrics on an existing object (with an optional only_these_metrics filter)."""
     args = {'op': 'metrics', 'obj': objid, 'f': ('filter:' + ','.join(flt)) if flt is not None else '', 'seq': seqno, 'ctx': '',
             'filtered': flt is not None, 'filter': list(flt) if flt is not None else []}
@@ -368,8 +368,9 @@ def exec_metrics(obj, objid, model, naming, flt=None, seqno=1, with_agree=True):
     ret['metrics'] = []
     try:
         with time_limit():
-            if flt is not None:
-                obj.only_these_metrics(list(flt))
+            if flt is not None and apply_filter:
+                # caller_list: the caller's OWN list object is handed in (and looked at again afterwards)
+                obj.only_these_metrics(caller_list if caller_list is not None else list(flt))
             res = obj.execute(model).get_result()
         ret['metrics'], ret['bad'] = project_metrics(res, model, naming)
     except (Exception, CallTimeout) as exc:
